@@ -70,4 +70,9 @@ def pairs_tasks(tier, prop, ops):
             for sh in range(n):
                 out.append(task(P, "run", f"si.{op}/exhaustive-pairs@w{w}" + (f"#{sh}" if n > 1 else ""), [prop], kind="bounded", replay=P + ":replay",
                                 op=op, w=w, shard=sh, nshards=n, budget_s=200 if tier == "quick" else 2000))
+    # the same enumeration with several widths in ONE process, revisiting a width: results must not depend on what was computed before
+    hist = [o for o in ops if o in ("eval", "min", "max", "cardinality", "solution", "union", "intersection", "add", "ULT", "SLT", "bitwise_and", "neg")]
+    if hist:
+        out.append(task(P, "run_history", f"si.[{','.join(hist[:4])},...]/exhaustive-after-history", [prop], kind="bounded", replay=P + ":replay",
+                        ops=hist, widths=[2, 3, 2, 1, 3] if len(hist) < 8 else [2, 3, 2], budget_s=200 if tier == "quick" else 2000))
     return out
